@@ -110,9 +110,14 @@ def segment_within_buffer(
             # *end, min_x, min_y, max_x, max_y
         ):
             ls = LineString([start, end])
-            if ls.length > snap_threshold * overlap_detection_multiplier and ls.within(
-                buffered_linestring
-            ):
+            # The segments are cut to the detection length
+            # (snap_threshold * overlap_detection_multiplier). A strict
+            # comparison of the float lengths would make the result depend
+            # on rounding (e.g. never true for axis-parallel traces).
+            detection_length = snap_threshold * overlap_detection_multiplier
+            if (
+                ls.length > detection_length or np.isclose(ls.length, detection_length)
+            ) and ls.within(buffered_linestring):
                 return True
     return False
 
